@@ -19,7 +19,7 @@ def check(ctx, rep):
     flag = B.rule_stop(m, rep)
     B.rule_run_exit(m, rep, flag)
     B.rule_same_sender(m, rep)
-    A.rule_loop(m, rep, 'R3loop')
+    A.rule_loop(m, rep, 'R3loop', liveness=True)
     B.rule_release(m, rep)
     B.rule_drop_nonblocking(m, rep)
     B.rule_handle_drop(m, rep, 'R5h')
